@@ -31,7 +31,7 @@ ASSUMPTIONS = [
     "method left/right: j = clip(bisect_<side>(sorted labels, l), 0, n-1), written from the statement",
     "new labels are of the axis' kind (int/float interchangeable)",
 ]
-MANDATORY = ["like:raise_error", "like:raise_error-raised", "new:float-for-int", "new:repeated", "new:repeated-missing", "new:empty", "new:missing", "new:permuted", "as:axis", "as:array", "fill:str", "fill:-1", "fill:nan-into-int",
+MANDATORY = ["call:positional", "like:raise_error", "like:raise_error-raised", "new:float-for-int", "new:repeated", "new:repeated-missing", "new:empty", "new:missing", "new:permuted", "as:axis", "as:array", "fill:str", "fill:-1", "fill:nan-into-int",
              "raise_error:raised", "method:left", "method:right", "source:shuf", "axis:not-first", "like", "identity"]
 
 
@@ -89,7 +89,7 @@ def reindex_case(draw):
     return {"mode": "axis", "spec": spec, "ax": ax, "axis_form": draw(st.sampled_from(["name", "pos", "neg"])), "new": new,
             "as": draw(st.sampled_from(["list", "array", "axis"])), "fill": draw(st.sampled_from(["nan", "nan", "nan", -1, "missing", 0, ""])),
             # raise_error is only combined with method=None: with a method nothing is ever filled, the statement does not say what "missing" means
-            "raise_error": draw(st.sampled_from([False, False, True])) if method is None else False, "method": method}
+            "raise_error": draw(st.sampled_from([False, False, True])) if method is None else False, "method": method, "positional": draw(st.integers(0, 3)) == 0}
 
 
 @st.composite
@@ -190,14 +190,18 @@ def run_axis(case):
     if method is not None:
         kw["method"] = method
     exp, missing = expected_reindex(vals, labels, ax, new, fill, method)
+    call = lambda: a.reindex_axis(newobj, **kw)
+    if case.get("positional") and case["as"] != "axis":
+        # the documented parameter order reindex_axis(values, axis, fill_value, raise_error, method), all given by position
+        call = lambda: a.reindex_axis(newobj, kw["axis"], fill, bool(case["raise_error"]), method)
     what = "reindex_axis(%s as %s, %s) on dims=%s labels=%s" % (core.jsonable(new), case["as"], core.jsonable(kw), dims, labels)
     sig = {"mode": "axis", "method": method}
     cl = set()
     if case["raise_error"] and any(missing):
-        core.must_raise(lambda: a.reindex_axis(newobj, **kw), (IndexError,), what, sig=sig)
+        core.must_raise(call, (IndexError,), what, sig=sig)
         cl.add("raise_error:raised")
     else:
-        res = lib(lambda: a.reindex_axis(newobj, **kw), what=what, sig=sig)
+        res = lib(call, what=what, sig=sig)
         newlabels = [list(l) for l in labels]
         newlabels[ax] = list(new)
         compare(res, dims, newlabels, exp, what, sig)
@@ -227,6 +231,8 @@ def run_axis(case):
     if set(canon_new) == set(canon_old) and canon_new != canon_old:
         cl.add("new:permuted")
     cl.add("as:" + case["as"])
+    if case.get("positional") and case["as"] != "axis":
+        cl.add("call:positional")
     if case["fill"] == "missing":
         cl.add("fill:str")
     if case["fill"] == -1:
